@@ -549,6 +549,10 @@ class Gen:
     def printable(self, scope):
         roll = self.rng.random()
         if roll < 0.15:
+            if self.profile == 'print' and self.chance(0.3):
+                # the escaped quote (the one escape the lexer knows): in the middle, at the start, at the very end
+                value = self.pick(['say "hi"', '"quoted"', 'ends with "', '" starts', 'a"b"c'])
+                return ('lit', {'k': 'str', 's': value}, '"%s"' % value.replace('"', '\\"'))
             return A.string(self.pick(['hello', 'a b', '-----', 'x=1', 'Top']))
         if roll < 0.3:
             strs = [v for v in scope.vars.values() if v.typ == 'str']
